@@ -75,6 +75,13 @@ class CutPoint:
             return r
         if isinstance(r, range) and r.step in (1, -1):
             return SymRange(r.start, r.stop, r.step)
+        from .arrays import I0, SymArray
+
+        if isinstance(r, SymArray) and r.sort == "int":
+            # np.arange(n) / np.arange(a, b): elem(i) = i + c
+            c = z3.simplify(r._elem(I0) - I0)
+            if z3.is_int_value(c):
+                return SymRange(c.as_long(), r.n + c.as_long(), 1)
         raise EngineLimit(f"cut-point loop over {type(r).__name__} (only range with step +-1)")
 
     def enter(self, r):
